@@ -11,6 +11,7 @@ from typing import List, Optional
 
 from adaptix import AdornedRetort, CannotProvide, Chain, P, Provider, ProviderNotFoundError, Retort, bound, dumper, loader
 from adaptix._internal.morphing.request_cls import DumperRequest, LoaderRequest, StrictCoercionRequest
+from adaptix._internal.provider.facade.provider import bound_by_any
 from adaptix._internal.provider.request_checkers import AlwaysTrueRequestChecker
 
 from .common import digest
@@ -106,6 +107,15 @@ PREDS = {
     "P[RN].next": (lambda: P[RN].next, lambda st: len(st) >= 2 and st[-2][0] == "RN" and _last(st)[1] == "next", False),
     "P[RN].v": (lambda: P[RN].v, lambda st: len(st) >= 2 and st[-2][0] == "RN" and _last(st)[1] == "v", False),
 }
+
+
+def pred_match(name, st):
+    """'any:p1,p2' is a provider bound to several predicates at once (the facade's bound_by_any)."""
+    if name.startswith("any:"):
+        return any(PREDS[p][1](st) for p in name[4:].split(";"))
+    return PREDS[name][1](st)
+
+
 GROUPABLE = [k for k, v in PREDS.items() if v[2]]
 NONGROUPABLE = [k for k, v in PREDS.items() if not v[2]]
 KINDS = ["plain", "plain", "first", "last", "answer", "decline", "decline", "terminal", "delegate", "crash", "optprobe"]
@@ -176,9 +186,11 @@ def _mark(tag, i):
 def build_item(it, log, inner=None):
     """inner: dict idx -> retort object; filled with the inner retorts built here, and consulted first
     (so that a derived inner retort can be placed into a second outer recipe)."""
-    pred = PREDS[it["pred"]][0]()
     kind = it["kind"]
     i = it["idx"]
+    if it["pred"].startswith("any:"):
+        return bound_by_any([PREDS[p][0]() for p in it["pred"][4:].split(";")], Faulty(i, kind, log))
+    pred = PREDS[it["pred"]][0]()
     if kind in ("plain", "first", "last"):
         ch = {"plain": None, "first": Chain.FIRST, "last": Chain.LAST}[kind]
         tag = {"plain": "p", "first": "f", "last": "l"}[kind]
@@ -270,7 +282,7 @@ class Model:
             kind = it["kind"]
             if kind in ("plain", "first", "last") and it["dir"] != d:
                 continue
-            if not PREDS[it["pred"]][1](st):
+            if not pred_match(it["pred"], st):
                 continue
             idx = it["idx"]
             if kind == "plain":
@@ -319,7 +331,7 @@ class Model:
         """Option requests walk the same recipe: a retort in the recipe whose predicate matches the
         location serves them from its own options; otherwise the retort's own option applies."""
         for it in flatten(spec):
-            if it["kind"] == "retort" and PREDS[it["pred"]][1](st):
+            if it["kind"] == "retort" and pred_match(it["pred"], st):
                 return self.strict(it["sub"], st)
         return spec["opts"]["strict_coercion"]
 
@@ -458,6 +470,7 @@ def gen_items(rng, n, counter, depth=0):
         it = {"idx": idx, "pred": pn, "kind": kind}
         if kind in ("plain", "first", "last"):
             it["dir"] = "L" if rng.random() < 0.7 else "D"
+        multi = rng.random() < 0.10
         if depth == 0 and rng.random() < 0.10:
             it["kind"] = "retort"
             it["unbound"] = rng.random() < 0.4
@@ -465,6 +478,8 @@ def gen_items(rng, n, counter, depth=0):
                 it["pred"] = "ANY"
             it["sub"] = {"full": rng.random() < 0.5, "opts": {"strict_coercion": rng.random() < 0.5},
                          "instance": gen_items(rng, rng.randint(1, 3), counter, 1), "classes": []}
+        if multi and it["kind"] not in ("plain", "first", "last", "retort"):
+            it["pred"] = "any:" + ";".join(rng.sample(sorted(PREDS), rng.randint(2, 3)))
         items.append(it)
     return items
 
